@@ -35,17 +35,19 @@ ASSUMPTIONS = [
 SHARDS = {"quick": 16, "thorough": 16}
 TIMEOUT = {"quick": 900, "thorough": 7200}
 MIN_CASES = {"quick": 2000, "thorough": 10000}
-REQUIRED_COUNTERS = ["advertisements_fed", "accepted_and_delivered", "replays_ignored", "forgeries_ignored", "bitflips_ignored", "state_advances_checked", "rekey_replays_ignored", "pairing_reloads"]
+REQUIRED_COUNTERS = ["advertisements_fed", "accepted_and_delivered", "replays_ignored", "forgeries_ignored", "bitflips_ignored", "state_advances_checked", "rekey_replays_ignored", "pairing_reloads", "cold_start_histories"]
 
 DEVICE_ID = bytes.fromhex("aabbcc001122")
 OTHER_ID = bytes.fromhex("998877665544")
 UNKNOWN_ID = bytes.fromhex("010203040506")
-FORMATS = {10: "bool", 11: "uint8", 12: "uint16", 13: "uint32", 14: "uint64", 15: "int", 16: "float", 17: "string", 18: "data"}
+FORMATS = {10: "bool", 11: "uint8", 12: "uint16", 13: "uint32", 14: "uint64", 15: "int", 16: "float", 17: "string", 18: "data",
+           # instance ids are 16 bits wide: ids beyond one byte, and one whose low byte equals another characteristic's id
+           266: "float", 300: "uint16", 0x0B0A: "int", 65535: "uint8"}
 CLASSES = ["G1", "Gk", "Gk99", "Gcur", "Gold", "Gsm", "G100", "G1000", "WK", "WA", "UA", "IG", "TR", "ST", "RL"]
 
 
 def entity_map():
-    chars = [{"iid": iid, "type": f"0000FE{iid:02X}-0000-1000-8000-0026BB765291", "perms": ["pr", "ev"], "format": fmt, "value": None, "broadcast_events": True}
+    chars = [{"iid": iid, "type": f"00{iid:06X}-0000-1000-8000-0026BB765291", "perms": ["pr", "ev"], "format": fmt, "value": None, "broadcast_events": True}
              for iid, fmt in FORMATS.items()]
     info = {"iid": 1, "type": "0000003E-0000-1000-8000-0026BB765291", "characteristics": [
         {"iid": 2, "type": "00000023-0000-1000-8000-0026BB765291", "perms": ["pr"], "format": "string", "value": "sim"}]}
@@ -78,7 +80,7 @@ def encode_value(rng, fmt):
 
 
 class World:
-    def __init__(self, rng, start_l):
+    def __init__(self, rng, start_l, cold=False):
         from aiohomekit.characteristic_cache import CharacteristicCacheMemory
         from aiohomekit.controller.ble.controller import BleController
         from aiohomekit.utils import serialize_broadcast_key
@@ -87,7 +89,8 @@ class World:
         self.key = rng.randbytes(32)
         self.other_key = rng.randbytes(32)
         cache = CharacteristicCacheMemory()
-        cache.async_create_or_update_map(fmt_id(DEVICE_ID), 1, entity_map(), serialize_broadcast_key(self.key), start_l or None)
+        # (cold start: the configuration number differs from every state number used, so that mixing the two up shows)
+        cache.async_create_or_update_map(fmt_id(DEVICE_ID), 2 if cold else 1, entity_map(), serialize_broadcast_key(self.key), start_l or None)
         cache.async_create_or_update_map(fmt_id(OTHER_ID), 1, entity_map(), serialize_broadcast_key(self.other_key), 7)
         self.controller = BleController(char_cache=cache)
         self.pairing = self.controller.load_pairing("main", self.pdata(DEVICE_ID))
@@ -96,8 +99,11 @@ class World:
         self.other_log = []
         self.pairing.dispatcher_connect(lambda ev: self.log.append(ev))
         self.other.dispatcher_connect(lambda ev: self.other_log.append(ev))
-        # establish the advertised state (regular advertisement with GSN = start)
-        self.feed(DEVICE_ID, refb.regular_advertisement(DEVICE_ID, start_l))
+        # establish the advertised state (regular advertisement with GSN = start) - unless this is a COLD start: the process was
+        # restarted, the pairing is rebuilt from the cache (persisted key and state number) and the first thing heard is an
+        # encrypted notification
+        if not cold:
+            self.feed(DEVICE_ID, refb.regular_advertisement(DEVICE_ID, start_l))
         self.feed(OTHER_ID, refb.regular_advertisement(OTHER_ID, 7))
         self.log.clear()
         self.other_log.clear()
@@ -270,10 +276,12 @@ def step(ctx, w: World, klass, rng, replay, arg=None) -> bool:
     return True
 
 
-async def run_history(ctx, start, history, idx) -> None:
+async def run_history(ctx, start, history, idx, cold=False) -> None:
     rng = ctx.grng("C18", start, history, idx)
-    w = World(rng, start)
-    replay = {"start": start, "history": list(history), "idx": idx}
+    w = World(rng, start, cold=cold)
+    if cold:
+        ctx.count("cold_start_histories")
+    replay = {"start": start, "history": list(history), "idx": idx, "cold": cold}
     ctx.case(start, tuple(history), idx, sample={"start_state_number": start, "history": list(history)}, kind="h%d" % min(len(history), 4))
     for klass in history:
         if not step(ctx, w, klass, rng, replay):
@@ -353,6 +361,12 @@ def run(ctx) -> None:
                 idx += 1
                 if ctx.mine(idx):
                     await run_history(ctx, start, hist, ("directed-reload", idx))
+        # cold starts (pairing rebuilt from the cache, no regular advertisement yet): old numbers stay old, fresh ones are fresh
+        for start in (255, 500, 65000):
+            for hist in (("Gsm",), ("Gold", "G1"), ("G1", "Gcur"), ("Gsm", "Gk", "Gold"), ("Gcur", "G1", "Gsm")):
+                idx += 1
+                if ctx.mine(idx):
+                    await run_history(ctx, start, hist, ("cold", idx), cold=True)
         for start in starts:
             for k in range(ctx.pick(2, 20)):
                 idx += 1
@@ -382,6 +396,6 @@ def replay(ctx, d) -> None:
             await run_rekey(ctx, d["start"], d["idx"])
         else:
             idx = d["idx"]
-            await run_history(ctx, d["start"], tuple(d["history"]), tuple(idx) if isinstance(idx, list) else idx)
+            await run_history(ctx, d["start"], tuple(d["history"]), tuple(idx) if isinstance(idx, list) else idx, cold=bool(d.get("cold")))
 
     vloop.run(main())
